@@ -35,8 +35,9 @@ CHECKS = {
 }
 OPS = [(r"==", "!="), (r"!=", "=="), (r"&&", "||"), (r"\|\|", "&&"), (r"\btrue\b", "false"), (r"\bfalse\b", "true"),
        (r"\.is_some\(\)", ".is_none()"), (r"\.is_none\(\)", ".is_some()"), (r"\.first\(\)", ".last()"), (r"\.last\(\)", ".first()"),
-       (r">=", ">"), (r"<=", "<"), (r"(?<![=!<>-])>(?![=>])\s", ">= "), (r"\+ 1\b", "+ 2"), (r"\b0\b", "1"), (r"\b1\b", "0"),
-       (r"if !", "if "), (r"\.is_empty\(\)", ".len() == 1"), (r"\.filter\(", ".filter(|_| true).filter("), (r"Some\(true\)", "Some(false)"),
+       (r">=", ">"), (r"<=", "<"), (r"\+ 1\b", "+ 2"), (r"\b0\b", "1"), (r"\b1\b", "0"),
+       (r"if !", "if "), (r"\.is_empty\(\)", ".len() == 1"), (r"\| !", "| "), (r"Some\(true\)", "Some(false)"),
+       (r"^(\s*)([a-z_\.]+\.(push|insert|extend|push_str)\(.*\);)\s*$", r"\1// \2"), (r"\bcontinue;", "break;"), (r"\.unwrap_or_default\(\)", ".unwrap()"),
        (r"\.any\(", ".all("), (r"\.all\(", ".any("), (r"\.skip\(1\)", ".skip(0)"), (r"unwrap_or\(false\)", "unwrap_or(true)"),
        (r"unwrap_or\(true\)", "unwrap_or(false)")]
 
@@ -73,7 +74,7 @@ def candidates():
                     if code[:m.start()].count('"') % 2 == 1:
                         continue
                     out.append({"file": f, "line": ln + 1, "col": m.start(), "op": "%s -> %s" % (pat, rep), "oi": oi,
-                                "before": line, "after": code[:m.start()] + rep + code[m.end():] + line[len(code):]})
+                                "before": line, "after": code[:m.start()] + m.expand(rep) + code[m.end():] + line[len(code):]})
     return out
 
 
@@ -133,7 +134,7 @@ def main():
         diff = sh(["git", "diff"], SCRATCH).stdout
         sh(["git", "checkout", "-q", "--", "."], SCRATCH)
         rec = {"n": k, "file": c["file"], "line": c["line"], "op": c["op"], "before": c["before"].strip(), "after": c["after"].strip(),
-               "suite": "does not compile" if not built else "%d passed, %d failed" % (passed, failed)}
+               "suite": "does not compile / fails" if not built else "%d passed, %d failed" % (passed, failed)}
         if built and failed == 0 and passed >= 62:
             # survives the project's tests: does the framework see it?
             open("/tmp/mut_current.diff", "w").write(diff)
